@@ -5,7 +5,7 @@ import ast
 from typing import Dict, List, Optional, Set, Tuple
 
 from .. import pat
-from ..flow import always_raises
+from ..flow import always_raises, nonempty_test
 from ..index import AnalysisError, Func, dotted, last_name, norm_stmt, parent
 from ..report import Finding, RuleResult
 from .compiler import cases_for, _walk
@@ -66,7 +66,7 @@ def rule_frontpipe(ctx, prop: str) -> RuleResult:
         res.analysed.append(f"{file}:{qn}")
         res.instances += 1
         res.nontrivial += 1
-        ok = any(isinstance(n, ast.If) and "errors" in ast.unparse(n.test) and always_raises(n.body) for n in f.body_nodes())
+        ok = any(isinstance(n, ast.If) and nonempty_test(n.test, "errors") and always_raises(n.body) for n in f.body_nodes())
         res.ob(ok)
         if not ok:
             res.add(Finding("FRONTPIPE", file, f.lineno, qn, "errors->raise", f"{qn.split('.')[0]} records errors but no longer raises when there are any: unsafe procedures are accepted"))
